@@ -10,12 +10,10 @@ package example
 //@   opt inline none
 //@   property C09
 //@   ensures* user.owned.file: result != nil ==> result.SkipExist
-//@   modifies all
 //@ func exampleSvrMain
 //@   opt inline none
 //@   property C09
 //@   ensures* user.owned.file: result != nil ==> result.SkipExist
-//@   modifies all
 
 // ---- generated output does not depend on map iteration order (C09) --------------------------------
 // Every function of this package that ranges over a map is either proved independent of the iteration order
